@@ -96,9 +96,13 @@ def events_of(sent, prov):
     from dpapi_ng._rpc import _pdu
     ev = []
     for i, raw in enumerate(sent):
-        p = _pdu.PDU.unpack(raw)
-        tok = p.sec_trailer.auth_value if p.sec_trailer else None
         fed = prov.fed[i] if prov and i < len(prov.fed) else None
+        try:
+            p = _pdu.PDU.unpack(raw)
+        except Exception:  # noqa  (the client sent something that is not a PDU: shown as type 254, flagged by the framing oracle)
+            ev.append((254, 0, None, [], fed))
+            continue
+        tok = p.sec_trailer.auth_value if p.sec_trailer else None
         ev.append((int(p.header.packet_type), int(p.header.packet_flags), tok, [c.context_id for c in p.contexts], fed))
     if prov:
         for j in range(len(sent), len(prov.fed)):
@@ -123,7 +127,9 @@ def run(ctx):
     cases = []
     core = ["ackAA1t", "ackAA0t", "ackAA1n", "ackAR1t", "ackRA0t", "ackN1t", "ackE1t", "nak", "fault", "resp", "eof", "wrongack"]
     scripts = [[(b"c1", True)], [(b"c1", False), (b"c2", True)], [(b"c1", False), (b"c2", False), (b"c3", True)], [(b"c1", False), (b"c2", False), (b"", True)],
-               [(b"c1", False), (b"", False)], [(b"c1", False), (b"c2", False), (b"c3", False), (b"c4", True)], [(b"c1", False), (b"c2", False)], [(b"", True)]]
+               [(b"c1", False), (b"", False)], [(b"c1", False), (b"c2", False), (b"c3", False), (b"c4", True)], [(b"c1", False), (b"c2", False)], [(b"", True)],
+               # tokens of a different length on every leg (NTLM / Kerberos tokens are): each PDU must be framed for ITS token
+               [(b"A" * 40, False), (b"B" * 24, False), (b"C" * 57, False), (b"D" * 12, True)], [(b"a" * 5, False), (b"b" * 33, False), (b"c" * 4, True)]]
     depth = 4 if ctx.thorough else 3
     ctxs_line = jo((rpcfmt.ctxel(c) for c in contexts()), "|")
     combos = []
@@ -162,6 +168,15 @@ def run(ctx):
             nonempty = [t for t in produced if t]
             if toks != nonempty[:len(toks)] or (out.startswith("ok") and toks != nonempty):
                 ctx.violation("provider tokens are not each sent exactly once and in order", inp, [hx(t) for t in toks], [hx(t) for t in nonempty])
+            # framing of every PDU sent, read straight from the wire octets (C706 12.6: frag_len at 8, auth_len at 10; the security
+            # trailer's 8-octet header precedes the token): the token must be the trailing auth_len octets of a frag_len-octet PDU
+            for i, raw in enumerate(sent):
+                if i < len(nonempty):
+                    fl_, al_ = int.from_bytes(raw[8:10], "little"), int.from_bytes(raw[10:12], "little")
+                    if fl_ != len(raw) or al_ != len(nonempty[i]) or bytes(raw[len(raw) - al_:]) != nonempty[i] or raw[len(raw) - al_ - 8] != 10:
+                        ctx.violation("a handshake PDU is not framed for the token it carries (frag_len / auth_len / trailer position)", inp,
+                                      f"pdu {i}: frag_len={fl_} auth_len={al_} wire={len(raw)} octets", f"frag_len={len(raw)} auth_len={len(nonempty[i])}, token last")
+                        break
             for i, (pt, fl, t, ids, fed) in enumerate(e for e in ev if e[0] != 255):
                 if (i == 0) != (pt == 11) or (i > 0 and pt != 14):
                     ctx.violation("first token not in a bind / later token not in an alter_context", inp, pt, "11 then 14")
